@@ -325,7 +325,13 @@ class Interp:
     def ev_Bin(self, n):
         op = n["op"]
         if op in ("And", "Or"):
-            a, b = self.ev(n["l"]), self.ev(n["r"])
+            a = self.ev(n["l"])
+            # `&&` / `||` short-circuit: the right operand (which may have effects: a fallback solve) is not evaluated when the left decides
+            if op == "And" and (a is sp.false or a is False):
+                return sp.false
+            if op == "Or" and (a is sp.true or a is True):
+                return sp.true
+            b = self.ev(n["r"])
             return sp.And(a, b) if op == "And" else sp.Or(a, b)
         a = self.num(self.ev(n["l"]), n["l"])
         b = self.num(self.ev(n["r"]), n["r"])
